@@ -412,6 +412,17 @@ func exprKeyRaw(v ssa.Value, d int) string {
 			return k
 		}
 		if f := calleeOf(&v.Call); f != nil {
+			// methods promoted from go/types' embedded object (Pkg, Name, Type…) and interface
+			// invocations of the same method render alike: "<recv>.M()"
+			if f.Pkg != nil && f.Pkg.Pkg.Path() == "go/types" && f.Signature.Recv() != nil && len(v.Call.Args) == 1 {
+				recv := v.Call.Args[0]
+				if fa, ok := recv.(*ssa.FieldAddr); ok {
+					if _, fld, okf := fieldOf(fa); okf && fld == "object" {
+						recv = fa.X
+					}
+				}
+				return exprKeyD(recv, d+1) + "." + f.Name() + "()"
+			}
 			var as []string
 			for _, a := range v.Call.Args {
 				as = append(as, exprKeyD(a, d+1))
@@ -526,6 +537,10 @@ func inlineCallKey(v *ssa.Call, d int) (string, bool) {
 		return "", false
 	}
 	rk := exprKeyD(rets[0].Results[0], d+2)
+	if strings.Contains(rk, "phi:") || strings.Contains(rk, "‹") {
+		// a result that is a phi of the callee (or abbreviated) has no meaning in the caller's terms
+		return "", false
+	}
 	sub := map[string]string{}
 	for i, pa := range callee.Params {
 		sub[pa.Name()] = exprKeyD(v.Call.Args[i], d+2)
